@@ -196,6 +196,7 @@ static std::string contentText(vh::Rng &r)
     --e;
   return s.substr(b, e - b);
 }
+static int g_maxFanout = 5;  // children per node: below 5, or (large documents) below a few hundred
 static TNode genNode(vh::Rng &r, int depth, long &budget)
 {
   TNode n;
@@ -209,7 +210,7 @@ static TNode genNode(vh::Rng &r, int depth, long &budget)
     if (!dup)
       n.props.push_back(std::make_pair(pn, std::string()));
   }
-  int nc = depth > 0 && budget > 0 ? (int)r.below(5) : 0;
+  int nc = depth > 0 && budget > 0 ? (int)r.below(g_maxFanout) : 0;
   for (int i = 0; i < nc && budget > 0; ++i) {
     --budget;
     n.child.push_back(genNode(r, depth - 1, budget));
@@ -333,7 +334,7 @@ static Doc genDoc(vh::Rng &r, int maxDepth, long budget)
   for (int i = 0; i < nroots; ++i) {
     if (r.chance(1, 5))
       d.text += comments(r);
-    d.roots.push_back(genNode(r, (int)r.below(maxDepth + 1), budget));
+    d.roots.push_back(genNode(r, g_maxFanout != 5 || maxDepth > 6 ? maxDepth : (int)r.below(maxDepth + 1), budget));
     serialize(r, d.roots.back(), d.text);
     d.text += ws(r, false);
   }
@@ -346,8 +347,23 @@ static Doc genDoc(vh::Rng &r, int maxDepth, long budget)
 static void roundTripCase(long k)
 {
   vh::Rng r(vh::seed(), 16000 + (uint64_t)k);
-  Doc d = genDoc(r, 6, 40);
-  std::string ctx = "#" + std::to_string(k) + " document: " + printable(d.text);
+  // most documents are small; one in a hundred is large: hundreds to thousands of nodes, wide and shallow or narrow
+  // and deep (size is an input dimension of its own: counters, depth limits, buffers)
+  bool large = k % 100 == 7;
+  long budget = 40;
+  int depth   = 6;
+  if (large) {
+    budget      = (long)r.pick(std::vector<long>{300, 1200, 5000});
+    g_maxFanout = r.chance(2, 3) ? (int)r.pick(std::vector<int>{40, 400, 2000}) : 3;
+    depth       = g_maxFanout > 3 ? (int)r.range(1, 3) : 40;
+  }
+  Doc d = genDoc(r, depth, budget);
+  g_maxFanout = 5;
+  std::string ctx = "#" + std::to_string(k) + " document: " + (large ? printable(d.text.substr(0, 1500)) + "... (" + std::to_string(d.text.size()) + " bytes)" : printable(d.text));
+  if (large) {
+    vh::count("roundtrip_large_documents");
+    vh::maxi("roundtrip_largest_document_bytes", (long long)d.text.size());
+  }
   xml::XMLDoc x;
   std::string what;
   int rc = parseBytes(d.text, &x, &what);
